@@ -56,7 +56,8 @@ fn apply_stage<'a>(it: BoxIt<'a>, idx: u8, st: &'a StageSpec, log: Log) -> BoxIt
 }
 
 fn source<'a>(case: &'a Case, n: usize, log: Log) -> BoxIt<'a> {
-    let base = (0..n as u64).map(move |p| (p << 12, case.val_at(p)));
+    let first = if case.src == Src::ConIterVec { case.pre_consumed.min(n) as u64 } else { 0 };
+    let base = (first..n as u64).map(move |p| (p << 12, case.val_at(p)));
     match case.src {
         Src::Range => Box::new(base.map(move |(id, val)| {
             log.borrow_mut().push((ST_LIFT, id));
